@@ -3,9 +3,12 @@ may depend on (checked against Print Assumptions on every run)."""
 from sfv import STDLIB_AXIOMS_ALLOWED
 
 THEOREMS = {
-    "C01": ["C01_roundtrip_seq", "C01_same_type", "C01_xyz_bit_identical", "C01_measures", "C01_measure_rule",
+    "C01": ["C01_roundtrip_seq", "C01_roundtrip_index", "C01_same_type", "C01_xyz_bit_identical", "C01_measures", "C01_measure_rule",
             "C01_kinds_and_box", "C01_roles"],
     "C02": ["C02_record", "C02_emits_spec", "C02_conformant", "C02_geometry_recovered"],
+    "C04": ["C04_shx_layout", "C04_entries", "C04_entries_address_records", "C04_reader", "C04_hint_and_count"],
+    "C14": ["C14_index_governs", "C14_iteration_is_index_order", "C14_nth_agrees"],
+    "C15": ["C15_history", "C15_nth_and_count_stable", "C15_iteration", "C15_partial_iteration", "C15_positions"],
     "C03": ["C03_record", "C03_decodes_conformant"],
     "C09": ["C09_finalize_irrelevant", "C09_files", "C09_finalize_complete", "C09_clean_finalize_silent"],
     "C10": ["C10_reject", "C10_erase"],
@@ -18,7 +21,11 @@ THEOREMS = {
 # theorems whose statement mentions the orientation test (Flocq binary64 arithmetic) inherit the four
 # classical-reals axioms of the standard library through Flocq's definitions
 FLOCQ = set(STDLIB_AXIOMS_ALLOWED)
-AXIOMS = {"C03_record": FLOCQ, "C03_decodes_conformant": FLOCQ, "C01_roundtrip_seq": FLOCQ, "C01_roles": FLOCQ, "C01_same_type": FLOCQ, "C01_xyz_bit_identical": FLOCQ,
+AXIOMS = {"C01_roundtrip_index": FLOCQ, "C04_shx_layout": set(), "C04_entries_address_records": FLOCQ, "C04_reader": FLOCQ,
+          "C04_hint_and_count": FLOCQ, "C14_index_governs": FLOCQ, "C14_iteration_is_index_order": FLOCQ, "C14_nth_agrees": FLOCQ,
+          "C15_history": FLOCQ, "C15_nth_and_count_stable": FLOCQ, "C15_iteration": FLOCQ, "C15_partial_iteration": FLOCQ,
+          "C15_positions": FLOCQ,
+          "C03_record": FLOCQ, "C03_decodes_conformant": FLOCQ, "C01_roundtrip_seq": FLOCQ, "C01_roles": FLOCQ, "C01_same_type": FLOCQ, "C01_xyz_bit_identical": FLOCQ,
           "C01_measures": FLOCQ, "C01_kinds_and_box": FLOCQ,
           "C02_geometry_recovered": FLOCQ}
 
